@@ -8,7 +8,8 @@ open Umya.CellXml Umya.Num
 
 /-- **Tie to the source (T).**  For every model value `r` and optional formula `f`: the compiled
     `get_data_type` on the variant tag of `r` is `r.dataType`, and the compiled `get_data_type_crate` on
-    (tag of `r`, `f.is_some()`) is the model's `dataTypeOf` — the `"str"` arm for text results of formulas included;
+    (tag of `r`, `f.is_some()`) is the model's `dataTypeOf` — the `"str"` arm for plain text results of formulas and the
+    `"s"` arm for rich text results (fix 5) included;
     every variant of the `CellRawValue` declaration is covered by the model. -/
 theorem C01_datatype_matches_source :
     (∀ (F : NumFmt) (r : RawValue F.Num), Umya.Gen.raw_get_data_type (Umya.Gen.tagOf r) = r.dataType) ∧
@@ -21,5 +22,7 @@ theorem C01_datatype_matches_source :
 example : Umya.Gen.get_data_type_crate .String (some ()) = ['s', 't', 'r'] := by decide
 example : Umya.Gen.get_data_type_crate .Numeric (some ()) = ['n'] := by decide
 example : Umya.Gen.get_data_type_crate .String none = ['s'] := by decide
+/-- fix 5: a rich text cached under a formula keeps the shared-string type -/
+example : Umya.Gen.get_data_type_crate .RichText (some ()) = ['s'] := by decide
 
 end Umya.Thm.C01
